@@ -226,6 +226,72 @@ def check_dict_order(c, u=None, names=None):
     return m
 
 
+# ----------------------------------------------------------------------------------------------------------------- equal-length sequences
+SEQ2_SCALARS = ['None', 'i1', 'f2.5', 'nan_a', 'nan_b', 'inf', '-inf', 's_a']
+SEQ2_LIST_SCALARS = ['None', 'i1', 'nan_a', 'nan_b', 'inf']
+SEQ3_SCALARS = ['i1', 'nan_a', 'nan_b', 'inf']
+SEQ3_LIST_SCALARS = ['i1', 'nan_a', 'nan_b']
+
+
+def seq_value(u, name):
+    """'t:nan_a|i1' -> (nan_a, 1), 'l:nan_a|i1' -> [nan_a, 1]; the scalars are the objects of u, so NaN objects keep their identity across
+    the sequences that hold them (nan_a in two tuples is one object, nan_a / nan_b are two)"""
+    kind, parts = name.split(':')
+    return (tuple if kind == 't' else list)(u[p] for p in parts.split('|'))
+
+
+def seq_universes():
+    """two universes of sequence names, each checked in all pairs and all triples: equal-length tuples and lists of length 2 / of length 3
+    over finite numbers, two NaN objects of distinct identity, +-inf, None and a string.  Sequences that tie at one position through
+    different objects (nan_a / nan_b, NaN / inf) and differ at a later one are what the element-wise comparison has to get right."""
+    two = ['t:%s|%s' % (a, b) for a in SEQ2_SCALARS for b in SEQ2_SCALARS] + ['l:%s|%s' % (a, b) for a in SEQ2_LIST_SCALARS for b in SEQ2_LIST_SCALARS]
+    three = ['t:%s|%s|%s' % (a, b, d) for a in SEQ3_SCALARS for b in SEQ3_SCALARS for d in SEQ3_SCALARS]
+    three += ['l:%s|%s|%s' % (a, b, d) for a in SEQ3_LIST_SCALARS for b in SEQ3_LIST_SCALARS for d in SEQ3_LIST_SCALARS]
+    return [two, three]
+
+
+def check_seq_laws(c, u, names, count=True):
+    """range / never raises / antisymmetry / transitivity of cmp over the sequences `names` (all pairs, all triples)"""
+    from pyg_base import cmp
+    vals = {n: seq_value(u, n) for n in names}
+    m = {}
+    for a in names:
+        for b in names:
+            call = dict(kind='cmp_seq', names=[a, b])
+            try:
+                r = cmp(vals[a], vals[b])
+            except Exception as e:      # noqa
+                m[(a, b)] = None
+                c.check(False, 'C07:cmp:never-raises', 'cmp(%r, %r) raised %r' % (vals[a], vals[b], e), call)
+                continue
+            m[(a, b)] = r
+            c.check(type(r) is not bool and r in (-1, 0, 1), 'C07:cmp:range', 'cmp(%r, %r) = %r' % (vals[a], vals[b], r), call)
+    for a in names:
+        for b in names:
+            x, y = m[(a, b)], m[(b, a)]
+            if count:
+                c.case(('cmp_seq', a, b), nontrivial=a != b, sample=dict(x=a, y=b, cmp=x) if (a, b) == ('t:inf|i1', 't:nan_a|f2.5') else None)
+            if x is None or y is None:
+                continue
+            c.check(x == -y, 'C07:cmp:antisymmetry', 'cmp(%r, %r) = %r but cmp(%r, %r) = %r' % (vals[a], vals[b], x, vals[b], vals[a], y), dict(kind='cmp_seq', names=[a, b]))
+    for a in names:
+        for b in names:
+            ab = m[(a, b)]
+            if ab is None or ab > 0:
+                continue
+            for z in names:
+                bz = m[(b, z)]
+                if bz is None or bz > 0:
+                    continue
+                az = m[(a, z)]
+                if az is None:
+                    continue
+                if not (az <= 0 and (az < 0 or (ab == 0 and bz == 0))):
+                    c.check(False, 'C07:cmp:transitivity', 'cmp(%r,%r)=%d, cmp(%r,%r)=%d but cmp(%r,%r)=%d (x, y, z = %s, %s, %s; NaN objects of different names are '
+                            'different objects)' % (vals[a], vals[b], ab, vals[b], vals[z], bz, vals[a], vals[z], az, a, b, z), dict(kind='cmp_seq', names=[a, b, z]))
+    return m
+
+
 # ----------------------------------------------------------------------------------------------------------------- sort
 def check_sort(c, vals, m, idx, names, xs_idx, kind):
     """vals: list of objects (the element universe); m: matrix over indices; xs_idx: tuple of indices"""
@@ -241,7 +307,8 @@ def check_sort(c, vals, m, idx, names, xs_idx, kind):
     except KeyError:
         return c.check(False, 'C07:sort:permutation', 'sort(%r) = %r contains an object that was not in the input' % (xs, r), call)
     ok = c.check(isinstance(r, list) and sorted(ri) == sorted(xs_idx), 'C07:sort:permutation', 'sort(%r) = %r is not a permutation' % (xs, r), call)
-    nd = all(m[(a, b)] is not None and m[(a, b)] <= 0 for a, b in zip(ri, ri[1:]))
+    # non-decreasing: no element is above a later one (every pair, not only neighbours: ties through different NaN objects must not hide an inversion)
+    nd = all(m[(ri[i], ri[j])] is not None and m[(ri[i], ri[j])] <= 0 for i in range(len(ri)) for j in range(i + 1, len(ri)))
     if not nd:
         key = K_D2 if has_nan(xs) and natively_sortable(xs) else 'C07:sort:nondecreasing'
         ok = c.check(False, key, 'sort(%r) = %r is not non-decreasing under cmp' % (xs, r), call)
@@ -317,6 +384,51 @@ def run_sort(c, u, rng, quick):
         xs = tuple(rng.randrange(len(t3vals)) for _ in range(rng.choice([2, 3, 4])))
         check_sort(c, t3vals, t3m, t3idx, t3names, xs, 'sort_tuples3')
         c.case(('sort3', xs), nontrivial=len(set(xs)) > 1)
+
+
+SORT_SEQ_NAN = ['i1', 'f2.5', 'nan_a', 'nan_b']                   # all lists of <= 3 of the 16 2-tuples
+SORT_SEQ_WIDE = ['None', 'i1', 'f2.5', 'nan_a', 'nan_b', 's_a']   # seeded lists of 3-5 of the 36 2-tuples
+SORT_SEQ3 = ['None', 'i1', 'nan_a', 'nan_b']                      # seeded lists of 2-4 of the 64 3-tuples
+SORT_LIST2 = ['i1', 'nan_a', 'nan_b']                             # all lists of <= 3 of the 9 2-lists
+
+
+def run_sort_seq(c, u, rng, quick):
+    """sort() over lists of equal-length tuples / lists that hold NaN objects of distinct identity next to finite numbers, None and
+    strings (the property keeps +-inf and bools out of sort)"""
+    from pyg_base import cmp
+
+    def universe_of(kind, scalars, n):
+        names = ['%s:%s' % (kind, '|'.join(p)) for p in itertools.product(scalars, repeat=n)]
+        vals = [seq_value(u, x) for x in names]
+        return names, vals, {id(v): i for i, v in enumerate(vals)}
+
+    class Lazy(dict):
+        def __init__(self, vals):
+            dict.__init__(self)
+            self.vals = vals
+
+        def __missing__(self, k):
+            try:
+                r = cmp(self.vals[k[0]], self.vals[k[1]])
+            except Exception:       # noqa
+                r = None
+            self[k] = r
+            return r
+    for tag, kind, scalars, n, upto in (('t2nan', 't', SORT_SEQ_NAN, 2, 3), ('l2nan', 'l', SORT_LIST2, 2, 3)):
+        names, vals, idx = universe_of(kind, scalars, n)
+        m = Lazy(vals)
+        for k in range(2, upto + 1):
+            for xs in itertools.product(range(len(vals)), repeat=k):
+                check_sort(c, vals, m, idx, names, xs, 'sort_seq')
+                c.case(('sort_seq', tag, xs), nontrivial=len(set(xs)) > 1, sample=dict(sort=[names[i] for i in xs]) if (tag, xs) == ('t2nan', (9, 12, 8)) else None)
+    for tag, kind, scalars, n, lens, reps in (('t2wide', 't', SORT_SEQ_WIDE, 2, (3, 4, 5), 1200 if quick else 30000), ('t3', 't', SORT_SEQ3, 3, (2, 3, 4), 1000 if quick else 30000),
+                                              ('t2nan', 't', SORT_SEQ_NAN, 2, (4, 5, 6), 800 if quick else 30000)):
+        names, vals, idx = universe_of(kind, scalars, n)
+        m = Lazy(vals)
+        for _ in range(reps):
+            xs = tuple(rng.randrange(len(vals)) for _ in range(rng.choice(lens)))
+            check_sort(c, vals, m, idx, names, xs, 'sort_seq')
+            c.case(('sort_seq', tag, xs), nontrivial=len(set(xs)) > 1)
 
 
 # ----------------------------------------------------------------------------------------------------------------- dictable.sort
@@ -445,6 +557,51 @@ def run_dsort(c, u, rng, quick):
         c.case(('dsort_byval', an, bv, bi))
 
 
+ORD_POOL = ['None', 'i1', 'i2', 's_x', 's_a', 'f2.5']                  # table values; pairwise different under ==
+ORD_BASE = ['s_x', 'i2', 'None', 's_a', 'i1']
+ORD_A = [ORD_BASE[:k] for k in range(1, 6)] + [ORD_BASE[::-1][:3], ORD_BASE[::-1], ORD_BASE + ['f2.5']]      # 1..6 listed values, 'f2.5' unlisted but in the last
+ORD_POOL2 = ['None', 'i1', 's_x', 'f2.5']
+ORD_A2 = [['s_x'], ['i1', 's_x', 'None'], ['f2.5', 'i2', 's_a', 'None', 'i1']]         # the last lists values the table cannot hold
+ORD_B2 = [[2, 0], [1], [0, 1, 2], [3, 2, 4, 5, 0]]
+B3_VALS = [0, 1, 2]
+
+
+def run_dsort_orders(c, u, rng, quick):
+    """dictable.sort(**explicit value orders): order lists of 1..6 values against tables of 0..7 rows (shorter than / as long as / longer than the
+    order list), tables over a pool that always holds values the order does not list, every listed value at every position of the list (all
+    tables of <= 3 rows, seeded longer ones); one and two ordered columns (both keyword orders)"""
+    n_all = 3 if quick else 4
+    for n in range(0, n_all + 1):
+        for an in itertools.product(ORD_POOL, repeat=n):
+            bv = tuple(rng.choice(B_VALS) for _ in range(n))
+            for oi, order in enumerate(ORD_A):
+                check_dsort_byval(c, u, an, bv, dict(a=order))
+                c.case(('dsort_order', an, bv, oi), nontrivial=n > 1, sample=dict(a=list(an), order=order) if (n, oi) == (2, 4) and an == ('f2.5', 'i1') else None)
+    for _ in range(2500 if quick else 40000):
+        n = rng.choice([4, 4, 5, 6, 7])
+        an = tuple(rng.choice(ORD_POOL) for _ in range(n))
+        bv = tuple(rng.choice(B_VALS) for _ in range(n))
+        oi = rng.randrange(len(ORD_A))
+        check_dsort_byval(c, u, an, bv, dict(a=ORD_A[oi]))
+        c.case(('dsort_order', an, bv, oi))
+    combos = [(i, j, first) for i in range(len(ORD_A2)) for j in range(len(ORD_B2)) for first in 'ab']
+    for n in range(0, n_all + 1):
+        for an in itertools.product(ORD_POOL2, repeat=n):
+            for bv in itertools.product(B3_VALS, repeat=n):
+                for i, j, first in (combos if (n <= 2 or not quick) else rng.sample(combos, 2)):
+                    byval = dict(a=ORD_A2[i], b=ORD_B2[j]) if first == 'a' else dict(b=ORD_B2[j], a=ORD_A2[i])
+                    check_dsort_byval(c, u, an, bv, byval)
+                    c.case(('dsort_order2', an, bv, i, j, first), nontrivial=n > 1)
+    for _ in range(800 if quick else 20000):
+        n = rng.choice([4, 5, 6])
+        an = tuple(rng.choice(ORD_POOL2) for _ in range(n))
+        bv = tuple(rng.choice(B3_VALS) for _ in range(n))
+        i, j, first = rng.choice(combos)
+        byval = dict(a=ORD_A2[i], b=ORD_B2[j]) if first == 'a' else dict(b=ORD_B2[j], a=ORD_A2[i])
+        check_dsort_byval(c, u, an, bv, byval)
+        c.case(('dsort_order2', an, bv, i, j, first))
+
+
 # ----------------------------------------------------------------------------------------------------------------- entry points
 def run(tier, seed):
     rng = random.Random(seed)
@@ -458,18 +615,29 @@ def run(tier, seed):
                        'native order inside numbers/strings/datetimes. Dicts and insertion order: all %d^2 pairs and %d^3 triples of a second universe holding, for the key sets '
                        '{a,b} (values 1,2,x), {a,b,c} (values 1,2) and {1,a} (values 1,2), every assignment of values in every insertion order (so crossing values such as '
                        '{a:1,b:2} / {b:1,a:2} meet in both orders), the same dicts inside tuples, lists and dict values, and neighbours with other key sets: range, never '
-                       'raises, antisymmetry, transitivity, cmp == 0 whenever the two values are ==. sort(): all lists of length <= %d over 14 scalars (None, ints, finite floats, two NaN objects, '
-                       'strings, datetimes)%s, all lists of length <= 3 over the %d 2-tuples of %d scalars, seeded lists of 4-5 2-tuples and 2-4 3-tuples: permutation '
-                       '(by identity) and non-decreasing under cmp. dictable.sort: all tables of <= %d rows with a in 5 mixed values (and separately 5 numeric values '
+                       'raises, antisymmetry, transitivity, cmp == 0 whenever the two values are ==. Equal-length sequences: all pairs and triples of the 64 2-tuples over '
+                       '{None, 1, 2.5, two NaN objects of distinct identity, +inf, -inf, a string} with the 25 2-lists over {None, 1, the two NaN objects, +inf}, and of the 64 '
+                       '3-tuples over {1, the two NaN objects, +inf} with the 27 3-lists over {1, the two NaN objects} (a NaN object keeps its identity across sequences): range, '
+                       'never raises, antisymmetry, transitivity. sort(): all lists of length <= %d over 14 scalars (None, ints, finite floats, two NaN objects, '
+                       'strings, datetimes)%s, all lists of length <= 3 over the %d 2-tuples of %d scalars, seeded lists of 4-5 2-tuples and 2-4 3-tuples, all lists of <= 3 of the 16 2-tuples over '
+                       '{1, 2.5, two NaN objects} and of the 9 2-lists over {1, two NaN objects}, seeded lists of 3-6 2-tuples / 2-4 3-tuples over {None, 1, 2.5, two NaN objects, a '
+                       'string}: permutation (by identity) and non-decreasing under cmp (no element above a later one, every pair). dictable.sort: all tables of <= %d rows with a in 5 mixed values (and separately 5 numeric values '
                        'incl. two NaN objects) x b in {0,1} x 8 key choices (columns, lists, functions), seeded tables of 4-5 rows: permutation, ordered, stable, '
-                       'idempotent; 8 explicit value orders against a rank oracle. A case is non-trivial when the inputs are not all the same object.'
-                       % (len(names), len(names), len(dict_order_universe()), len(dict_order_universe()), 4 if quick else 5, ', length 5 over 6 of them' if quick else '', 25 if quick else 49, 5 if quick else 7, 3 if quick else 4),
+                       'idempotent; 8 explicit value orders against a rank oracle; explicit value orders of 1..6 listed values (prefixes of two permutations) against all tables of <= %d '
+                       'rows and seeded tables of 4-7 rows over 6 values of which at least one is never listed (tables shorter than / as long as / longer than the order list), '
+                       'and two ordered columns (3 x 4 order lists, both keyword orders, lists longer than the table and listing absent values) over all tables of <= %d rows of '
+                       '4 x 3 values and seeded 4-6 rows: listed values in the given order, unlisted last, ties by position. A case is non-trivial when the inputs are not all the same object.'
+                       % (len(names), len(names), len(dict_order_universe()), len(dict_order_universe()), 4 if quick else 5, ', length 5 over 6 of them' if quick else '', 25 if quick else 49, 5 if quick else 7, 3 if quick else 4, 3 if quick else 4, 3 if quick else 4),
                   exhaustive=False, scope='universe of %d values + %d dicts/neighbours in every insertion order; lists <= %d; tables <= %d rows (all) and 5 rows (sampled)' % (len(names), len(dict_order_universe()), 5, 3 if quick else 4))
     m = cmp_matrix(c, u, names)
     check_cmp_laws(c, u, names, m)
     check_dict_order(c)
+    for seq_names in seq_universes():
+        check_seq_laws(c, u, seq_names)
     run_sort(c, u, rng, quick)
+    run_sort_seq(c, u, random.Random(seed + 7001), quick)
     run_dsort(c, u, rng, quick)
+    run_dsort_orders(c, u, random.Random(seed + 7002), quick)
     # ints beyond the float range (cmp converts ints to float first): outside the deductive contract's |i| <= 2**53 universe
     from pyg_base import cmp as _cmp
     for big in (10 ** 400, -10 ** 400):
@@ -519,6 +687,12 @@ def replay(call):
                 c.violations.setdefault(k, v)
     elif kind == 'cmp_order':
         check_dict_order(c, names=list(dict.fromkeys(call['names'])))
+    elif kind == 'cmp_seq':
+        check_seq_laws(c, u, list(dict.fromkeys(call['names'])), count=False)
+    elif kind == 'sort_seq':
+        names = list(dict.fromkeys(call['xs']))
+        vals = [seq_value(u, n) for n in names]
+        check_sort(c, vals, index_matrix(c, vals), {id(v): i for i, v in enumerate(vals)}, names, tuple(names.index(n) for n in call['xs']), kind)
     elif kind in ('sort', 'sort_tuples', 'sort_tuples3'):
         names = list(dict.fromkeys(call['xs']))
         vals = [tuple(u[p] for p in n.split('|')) if kind != 'sort' else u[n] for n in names]
